@@ -21,3 +21,20 @@ package formats
 //@   loop 1 step cell: values[i].TypeID == 4 ==> row[i] == values[i].Str
 //@   loop 1 step cellnull: values[i].TypeID == 0 ==> row[i] == ""
 //@   loop 1 step cellint: values[i].TypeID == 1 ==> row[i] == extStr("strconv.FormatInt", values[i].Int, 10)
+
+// C25 JSON. jenc(p, v, t): the JSON value p (as built through fastjson's arena: kinds 0 null, 1 integer number,
+// 2 float number, 3 true, 4 false, 5 string, 6 array, 7 object) encodes the value v under the type t: NULL -> null,
+// Int -> the exact integer, Float -> the exact double (a JSON number must be finite), Boolean -> true/false, String ->
+// the bytes, Time/Duration -> a string, List/Tuple -> an array of the element encodings in order, Object -> an object
+// holding every field's encoding under the type's field name; under a union type: the encoding under the alternative
+// that has the value's TypeID.
+//@ spec rec jenc(p *fastjson.Value, v Value, t Type) bool = ite(t.TypeID == 10, exists(a, 0, len(t.Union.Alternatives), t.Union.Alternatives[a].TypeID == v.TypeID && jenc(p, v, t.Union.Alternatives[a])), (v.TypeID == 0 ==> jkind(p) == 0) && (v.TypeID == 1 ==> jkind(p) == 1 && jint(p) == v.Int) && (v.TypeID == 2 ==> jkind(p) == 2 && same(jfloat(p), v.Float) && isFinite(v.Float)) && (v.TypeID == 3 ==> jkind(p) == ite(v.Boolean, 3, 4)) && (v.TypeID == 4 ==> jkind(p) == 5 && jstr(p) == v.Str) && ((v.TypeID == 5 || v.TypeID == 6) ==> jkind(p) == 5) && (v.TypeID == 7 ==> jkind(p) == 6 && jlen(p) == len(v.List) && forall(j, 0, len(v.List), jenc(jelem(p, j), v.List[j], deref(t.List.Element)))) && (v.TypeID == 9 ==> jkind(p) == 6 && jlen(p) == len(v.Tuple) && forall(j, 0, len(v.Tuple), jenc(jelem(p, j), v.Tuple[j], t.Tuple.Elements[j]))) && (v.TypeID == 8 ==> jkind(p) == 7 && forall(j, 0, len(v.Struct), jhas(p, t.Struct.Fields[j].Name) && jenc(jfield(p, t.Struct.Fields[j].Name), v.Struct[j], t.Struct.Fields[j].Type))))
+// fits(v, t): the value's shape is one the type describes (what the typechecker guarantees for a result column).
+//@ spec rec fits(v Value, t Type) bool = ite(t.TypeID == 10, exists(a, 0, len(t.Union.Alternatives), t.Union.Alternatives[a].TypeID == v.TypeID && fits(v, t.Union.Alternatives[a])) && forall(a, 0, len(t.Union.Alternatives), t.Union.Alternatives[a].TypeID != 10 && (t.Union.Alternatives[a].TypeID == v.TypeID ==> fits(v, t.Union.Alternatives[a]))), 0 <= v.TypeID && v.TypeID <= 9 && (v.TypeID == 7 ==> (len(v.List) == 0 || t.List.Element != nil) && forall(j, 0, len(v.List), fits(v.List[j], deref(t.List.Element)))) && (v.TypeID == 8 ==> len(t.Struct.Fields) == len(v.Struct) && forall(j, 0, len(v.Struct), fits(v.Struct[j], t.Struct.Fields[j].Type)) && forall(j, 0, len(v.Struct), forall(q, 0, len(v.Struct), j != q ==> t.Struct.Fields[j].Name != t.Struct.Fields[q].Name))) && (v.TypeID == 9 ==> len(t.Tuple.Elements) == len(v.Tuple) && forall(j, 0, len(v.Tuple), fits(v.Tuple[j], t.Tuple.Elements[j]))))
+//@ func ValueToJson
+//@   requires arena != nil && fits(value, t)
+//@   ensures encodes: jenc(result, value, t)
+//@   loop 1 invariant nomatch: 0 <= $k && $k <= len(t.Union.Alternatives) && forall(j, 0, $k, t.Union.Alternatives[j].TypeID != value.TypeID)
+//@   loop 2 invariant items: 0 <= $k && $k <= len(value.List) && jkind(arr) == 6 && jlen(arr) == $k && forall(j, 0, $k, jenc(jelem(arr, j), value.List[j], deref(t.List.Element)))
+//@   loop 3 invariant fields: 0 <= $k && $k <= len(value.Struct) && jkind(arr) == 7 && forall(j, 0, $k, jhas(arr, t.Struct.Fields[j].Name) && jenc(jfield(arr, t.Struct.Fields[j].Name), value.Struct[j], t.Struct.Fields[j].Type))
+//@   loop 4 invariant elems: 0 <= $k && $k <= len(value.Tuple) && jkind(arr) == 6 && jlen(arr) == $k && forall(j, 0, $k, jenc(jelem(arr, j), value.Tuple[j], t.Tuple.Elements[j]))
